@@ -3,14 +3,14 @@
 (* verdict) and equality with HeaderMirrorDefs!Expected (strict / drift) on   *)
 (* calls made by the real client through the real streamable transport to the *)
 (* real stateless server.  One observation per line:                          *)
-(*   [c |-> case, o |-> [accepted, same, code, hdr, sent]]                    *)
+(*   [c |-> case, o |-> [accepted, same, code, hdr, own, sibok]]              *)
 EXTENDS VerifTrace, FiniteSets
 M == INSTANCE HeaderMirrorDefs
 
 VARIABLE l
 MInit == l = 1 /\ MarkInit
-Case(e) == [depth |-> e.c.depth, ty |-> e.c.ty, val |-> e.c.val, hname |-> e.c.hname, sib |-> e.c.sib]
-Out(e) == [accepted |-> e.o.accepted, same |-> e.o.same, code |-> e.o.code, hdr |-> e.o.hdr]
+Case(e) == [depth |-> e.c.depth, ty |-> e.c.ty, val |-> e.c.val, hname |-> e.c.hname, nsib |-> e.c.nsib]
+Out(e) == [accepted |-> e.o.accepted, same |-> e.o.same, code |-> e.o.code, hdr |-> e.o.hdr, own |-> e.o.own, sibok |-> e.o.sibok]
 MNext == /\ l <= NLines /\ l' = l + 1
          /\ LET e == TraceLog[l]
                 c == Case(e)
